@@ -183,7 +183,7 @@ impl PublishProperties {
         let mut subscription_identifiers = Vec::new();
         let mut content_type = None;
 
-        let (properties_len_len, properties_len) = length(bytes.iter())?;
+        let (properties_len_len, properties_len) = length_in_frame(bytes.iter())?;
         bytes.advance(properties_len_len);
         if properties_len == 0 {
             return Ok(None);
@@ -225,7 +225,7 @@ impl PublishProperties {
                     user_properties.push((key, value));
                 }
                 PropertyType::SubscriptionIdentifier => {
-                    let (id_len, id) = length(bytes.iter())?;
+                    let (id_len, id) = length_in_frame(bytes.iter())?;
                     cursor += 1 + id_len;
                     bytes.advance(id_len);
                     subscription_identifiers.push(id);
